@@ -20,47 +20,39 @@ func init() { register("C14", checkC14) }
 
 func checkC14(c *Ctx) {
 	r := c.R
-	r.Explanation = "Decides structural necessary conditions of C14; every construct is resolved by ROLE (types, dataflow, exported anchors), never by an unexported name. (1) Containers: the struct types behind the exported anchors cmap.NewMap, cmap.NewAtomic, cmap.AtomicValue and slice.New are found through the constructors; in each, the one sync.(RW)Mutex field guards every other field. guard: every access to such a field in every function of the module happens with that mutex held (write mode for stores, map updates, delete, clear); helpers called with the lock held, deferred closures, and closures handed to a lock-taking helper as a callback inherit the caller's lockset. section: no method touches a state field in two critical sections (decided by a path analysis: no re-acquisition between two accesses; a call to a sibling that runs its own critical section counts as an access of the kind the sibling performs), or - the accepted double-checked idiom - the earlier sections only read and every write of a later section is preceded under the same acquisition by a re-read (possibly inside the sibling that writes). A method whose effect is split across lock releases, a writer under RLock, or an unlocked read cannot be linearizable. (2) ring ~ container/ring: per exported function of the reference (New and the methods of Ring) a layered decision: (a) the declaration and everything it reaches is AST-identical to $GOROOT/src/container/ring modulo generics and local names => OK; else (b) the two go/ssa functions are proved equivalent by relational symbolic execution - shared symbolic inputs and path condition, helpers executed in place on both sides, one store chain per field, canonical linear integer terms and comparisons (guard inversion, if/switch, early return, temporaries, operand order, n<=0 vs n<1, counted-loop variants, loop rotation, extracted/inlined helpers, renamed unexported fields/methods, captured variables all vanish), loops by induction over product cut points (loop-carried values get shared fresh symbols / base+d*k counters, the equalities are verified inductive) => OK; else (c) a bounded differential evaluation of the two SSA functions over small concrete heaps (nil, zero-value nodes, rings of 1..5 nodes, a second ring or position, n in -7..7, a recording callback) finds an input with different results / links / Values / callback sequence / panic => VIOLATION with that witness (and the differing leaf when the token shapes agree); else (d) UNDECIDED for that function only. The unexported link fields are matched by the bijection of same-typed fields under which most functions agree. (3) Buffered ring, bookkeeping necessary conditions with helpers followed (callee bodies as if inlined, parameters resolved through call sites): the head field is the *Ring field, the count field is what Len returns; AppendBack adds 1 to the count exactly once on every path, RemoveFront subtracts 1 exactly once and stores Next(head) (or Move(head,1)) into the head exactly once; Len returns the count; every ring linked on growth is New(k) with k >= 1 for every value ever stored into the size field; the grow/shrink decisions read only the count, the live ring, fields written only during construction, or fields that are updated both where the ring is linked and where it is unlinked. NOT decided: linearizability as such (these are necessary, not sufficient, conditions); the buffered ring's FIFO/grow/shrink behaviour as model equivalence; ring functions that are neither proved nor refuted."
+	r.Explanation = "Decides structural necessary conditions of C14; every construct is resolved by ROLE (types, dataflow, exported anchors), never by an unexported name. (1) Containers: the struct types behind the exported anchors cmap.NewMap, cmap.NewAtomic, cmap.AtomicValue and slice.New are found through the constructors; in each - searched through nested sub-structs of the package, by value, by pointer or embedded - the one sync.(RW)Mutex field guards every other field; a guarded map/slice handed as an argument to a visible callee or callback that writes it needs the write lock at the call. guard: every access to such a field in every function of the module happens with that mutex held (write mode for stores, map updates, delete, clear); helpers called with the lock held, deferred closures, and closures handed to a lock-taking helper as a callback inherit the caller's lockset. section: no method touches a state field in two critical sections (decided by a path analysis: no re-acquisition between two accesses; a call to a sibling that runs its own critical section counts as an access of the kind the sibling performs), or - the accepted double-checked idiom - the earlier sections only read and every write of a later section is preceded under the same acquisition by a re-read (possibly inside the sibling that writes). A method whose effect is split across lock releases, a writer under RLock, or an unlocked read cannot be linearizable. (2) ring ~ container/ring: per exported function of the reference (New and the methods of Ring) a layered decision: (a) the declaration and everything it reaches is AST-identical to $GOROOT/src/container/ring modulo generics and local names => OK; else (b) the two go/ssa functions are proved equivalent by relational symbolic execution - shared symbolic inputs and path condition, helpers executed in place on both sides, one store chain per field, canonical linear integer terms and comparisons (guard inversion, if/switch, early return, temporaries, operand order, n<=0 vs n<1, counted-loop variants, loop rotation, extracted/inlined helpers, renamed unexported fields/methods, captured variables all vanish), loops by induction over product cut points (loop-carried values get shared fresh symbols / base+d*k counters, the equalities are verified inductive) => OK; else (c) a bounded differential evaluation of the two SSA functions over small concrete heaps (nil, zero-value nodes, rings of 1..5 nodes, a second ring or position, n in -7..7, a recording callback) finds an input with different results / links / Values / callback sequence / panic => VIOLATION with that witness (and the differing leaf when the token shapes agree); else (d) UNDECIDED for that function only. The unexported link fields are matched by the bijection of same-typed fields under which most functions agree. (3) Buffered ring, bookkeeping necessary conditions with helpers followed (callee bodies as if inlined, parameters resolved through call sites, calls through function values with visible targets - locals, callback parameters, func-typed fields assigned in the package, method values - resolved; the roles are searched through sub-structs Buffered groups its state in): the head field is the *Ring field, the count field is what Len returns; AppendBack adds 1 to the count exactly once on every path, RemoveFront subtracts 1 exactly once and stores Next(head) (or Move(head,1)) into the head exactly once; Len returns the count; every ring linked on growth is New(k) with k >= 1 for every value ever stored into the size field; the grow/shrink decisions read only the count, the live ring, fields written only during construction, or fields that are updated both where the ring is linked and where it is unlinked. NOT decided: linearizability as such (these are necessary, not sufficient, conditions); the buffered ring's FIFO/grow/shrink behaviour as model equivalence; ring functions that are neither proved nor refuted."
 	r.Assumptions = append(r.Assumptions,
 		"lock identity is (struct type, field): two instances of one type are not distinguished; adequate because each guarded field lives in the struct that owns the lock",
 		"interface-dispatched calls do not acquire or release the tracked locks",
 		"ring equivalence: integer arithmetic is treated as unbounded (no wrap-around at 2^63); a dereference is compared as a set per path (which pointers are dereferenced), not by its position among the stores; the callback of Do does not modify the ring (as container/ring documents)",
 		"ring refutation: witnesses are searched only among well-formed heaps (disjoint rings and zero-value nodes)")
-	r.Rule("C14.guard", "guarded-by: accesses to the container's storage field need its RWMutex (W for writes)", 19)
-	r.Rule("C14.section", "whole-effect: all accesses of a method lie in one critical section, or later write sections re-read first (double check)", 19)
+	r.Rule("C14.guard", "guarded-by: accesses to the container's storage field need its RWMutex (W for writes)", 8)
+	r.Rule("C14.section", "whole-effect: all accesses of a method lie in one critical section, or later write sections re-read first (double check)", 8)
 	r.Rule("C14.buffered-count", "Buffered: AppendBack counts one element in, RemoveFront one out and advances the head by exactly one; Len/Front read end / the head", 4)
 	r.Rule("C14.buffered-capacity", "Buffered: growth/shrink decisions use the live ring length, or a capacity field that is updated wherever the ring is linked AND unlinked; buffer size >= 1", 3)
 	r.Rule("C14.ring-iso", "every exported function of ring (New, the methods of Ring) behaves like its counterpart in $GOROOT/src/container/ring: AST-identical modulo generics, or proved equivalent on go/ssa, else refuted by a concrete small heap", 9)
 
-	containers := c14ResolveContainers(c.P)
-	specs, immutable := c14DropImmutable(c.P, c14SpecsOf(containers))
-	r.Stats["fields_immutable_after_construction"] = immutable
-	var roles []string
-	for _, ct := range containers {
-		roles = append(roles, fmt.Sprintf("%s: type %s, state fields %v guarded by %s", ct.Anchor, shortID(ct.Type), ct.Fields, shortID(ct.Lock)))
+	// the three parts are independent: an anchor of one part that no longer
+	// resolves makes that part UNDECIDED and leaves the others decided
+	part := func(name string, f func()) {
+		defer func() {
+			if x := recover(); x != nil {
+				u, ok := x.(*UndecidedError)
+				if !ok {
+					panic(x)
+				}
+				r.Undecide("%s: %s", name, u.Reason)
+			}
+		}()
+		f()
 	}
-	r.Stats["containers_by_role"] = roles
-	cpk := map[string]bool{}
-	for _, ct := range containers {
-		if i := strings.LastIndex(ct.Type, "."); i > 0 {
-			cpk[ct.Type[:i]] = true
-		}
-	}
-	e := c14Locks(c, cpk)
-	unattr := c14UnattributedLockOps(c.P, e, cpk)
-	tmp := NewReport(r.Prop, r.Tier)
-	n := CheckGuardedBy(c.P, e, tmp, "C14.guard", specs)
-	c14CheckSections(c.P, e, tmp, "C14.section", specs)
-	c14Forward(r, tmp, unattr)
-	r.Stats["lock_operations_unattributed"] = unattr
-	r.Stats["guarded_accesses"] = n
-	r.Stats["lock_operations_unresolved"] = e.UnresolvedAt
-
-	t0 := time.Now()
-	c14Ring(c, "C14.ring-iso")
-	r.Stats["ring_equivalence_ms"] = time.Since(t0).Milliseconds()
-
-	c14Buffered(c)
+	part("containers", func() { c14Containers(c) })
+	part("ring", func() {
+		t0 := time.Now()
+		c14Ring(c, "C14.ring-iso")
+		r.Stats["ring_equivalence_ms"] = time.Since(t0).Milliseconds()
+	})
+	part("buffered", func() { c14Buffered(c) })
 
 	c.Fixture("c14sec", func(fp *Prog, fr *Report) {
 		fc := &Ctx{P: fp, R: fr, Tier: c.Tier, VerifDir: c.VerifDir}
@@ -104,4 +96,33 @@ func c14EdgeCond(pred, succ *ssa.BasicBlock) []DomCond {
 		return nil
 	}
 	return []DomCond{{ifi, pred.Succs[0] == succ}}
+}
+
+func c14Containers(c *Ctx) {
+	r := c.R
+	containers := c14ResolveContainers(c.P)
+	specs, immutable := c14DropImmutable(c.P, c14SpecsOf(containers))
+	r.Stats["fields_immutable_after_construction"] = immutable
+	var roles []string
+	for _, ct := range containers {
+		roles = append(roles, fmt.Sprintf("%s: type %s, state fields %v guarded by %s", ct.Anchor, shortID(ct.Type), ct.Fields, shortID(ct.Lock)))
+	}
+	r.Stats["containers_by_role"] = roles
+	cpk := map[string]bool{}
+	for _, ct := range containers {
+		if i := strings.LastIndex(ct.Type, "."); i > 0 {
+			cpk[ct.Type[:i]] = true
+		}
+	}
+	e := c14Locks(c, cpk)
+	unattr := c14UnattributedLockOps(c.P, e, cpk)
+	tmp := NewReport(r.Prop, r.Tier)
+	n := CheckGuardedBy(c.P, e, tmp, "C14.guard", specs)
+	c14CheckSections(c.P, e, tmp, "C14.section", specs)
+	c14AliasWrites(c.P, e, tmp, "C14.guard", specs)
+	c14Forward(r, tmp, unattr)
+	r.Stats["lock_operations_unattributed"] = unattr
+	r.Stats["guarded_accesses"] = n
+	r.Stats["lock_operations_unresolved"] = e.UnresolvedAt
+
 }
